@@ -135,7 +135,7 @@ theorem EndCtx.assign_joined (c : EndCtx P T T' s σ s1 g1 L1 ops) {j : Nat} {o 
   simp only [Bool.and_eq_true, Bool.not_eq_true', decide_eq_true_eq] at ha
   obtain ⟨_, _, hrow⟩ := c.row ho hoj ha.1
   have h0 : foldOps ops (delta (j + 1)) (j + 1) = 0 := by rw [← hrow j]; exact ha.2
-  obtain ⟨o', ho', e1, e2⟩ := diag_zero_join c.he.nsat c.frac h0
+  obtain ⟨o', ho', e1, e2⟩ := diag_zero_joined c.frac h0
   obtain ⟨d, hd, hst⟩ := c.he.dJoin o' ho' e2
   rw [e1, Nat.add_sub_cancel] at hd
   exact ⟨d, hd, hst⟩
